@@ -50,7 +50,8 @@ def gen_fields(rng, n=None):
         elif t["k"] == "opt" and r < 0.6:
             d = {"kind": "value", "v": {"t": "none"}}
         else:
-            d = {"kind": "value", "v": G.gen_value(rng, t)}
+            # (a Literal default shadowed by a later value with the same str() is C01's finding: keep C02 on expressible values)
+            d = {"kind": "value", "v": G.literal_expressible(t, G.gen_value(rng, t))}
         fld = {"name": nm, "ty": t, "default": d}
         # custom argparse arguments that must not change parsing: a metavar, a help text
         if rng.random() < 0.15:
@@ -118,13 +119,13 @@ def make_case(rng, fields, api="parse", cfg=None):
     for f in fields:
         must = f["default"]["kind"] == "missing" and f["ty"]["k"] != "opt"
         if must or rng.random() < 0.6:
-            asg[f["name"]] = G.gen_value(rng, f["ty"])
+            asg[f["name"]] = G.literal_expressible(f["ty"], G.gen_value(rng, f["ty"]))
     for _ in range(20):
         if expressible(fields, asg):
             break
         for f in fields:
             if f["name"] in asg:
-                asg[f["name"]] = G.gen_value(rng, f["ty"])
+                asg[f["name"]] = G.literal_expressible(f["ty"], G.gen_value(rng, f["ty"]))
     else:
         asg = {k: v for k, v in asg.items() if False}
     order = list(asg)
